@@ -200,11 +200,11 @@ func runC05(c *Ctx) {
 			tokG := p.Global("common/turbotunnel", "Token")
 			isTok := func(v ssa.Value) bool {
 				sl, ok := v.(*ssa.Slice)
-				return ok && sl.X == ssa.Value(tokG)
+				return ok && sl.X == ssa.Value(tokG) && sl.Low == nil && sl.High == nil
 			}
 			var cell *ssa.Alloc
 			for _, a := range eq.Call.Args {
-				if sl, ok := a.(*ssa.Slice); ok {
+				if sl, ok := a.(*ssa.Slice); ok && sl.Low == nil && sl.High == nil {
 					if al, ok := sl.X.(*ssa.Alloc); ok {
 						cell = al
 					}
